@@ -176,7 +176,8 @@ func coseSignAs(key crypto.Signer, tbs []byte, as string) []byte {
 		copy(out[2*n-len(sb):], sb)
 		return out
 	case *rsa.PrivateKey:
-		alg := map[int]string{2048: "PS256", 3072: "PS384", 4096: "PS512", 1024: "PS256", 2056: "PS256", 2560: "PS256", 3200: "PS384", 5120: "PS512"}[k.N.BitLen()]
+		alg := map[int]string{2048: "PS256", 3072: "PS384", 4096: "PS512", 1024: "PS256", 2056: "PS256", 2560: "PS256", 3200: "PS384", 5120: "PS512",
+			2000: "PS256", 2040: "PS256", 3064: "PS384", 4088: "PS512", 4104: "PS512"}[k.N.BitLen()]
 		if strings.HasPrefix(as, "PS") {
 			alg = as
 		}
